@@ -3,6 +3,7 @@ mod util;
 mod c02;
 mod c04;
 mod c09;
+mod c12;
 mod c16;
 mod rsp;
 mod sparql;
@@ -19,6 +20,7 @@ fn main() {
         "c02" => c02::main(&a),
         "c04" => c04::main(&a),
         "c09" => c09::main(&a),
+        "c12" => c12::main(&a),
         "c16" => c16::main(&a),
         "rsp" => rsp::main(&a),
         "sparql" => sparql::main(&a),
